@@ -8,6 +8,7 @@ import (
 	"encoding/binary"
 	"io"
 	"math"
+	"reflect"
 	"time"
 
 	"github.com/gopcua/opcua/errors"
@@ -23,6 +24,10 @@ type Buffer struct {
 	buf []byte
 	pos int
 	err error
+
+	// depth is the nesting level of the value which is being decoded
+	// from this buffer. See maxDecodeDepth.
+	depth int
 }
 
 func NewBuffer(b []byte) *Buffer {
@@ -166,10 +171,13 @@ func (b *Buffer) ReadStruct(r interface{}) {
 	var n int
 	var err error
 	switch x := r.(type) {
+	case depthDecoder:
+		n, err = x.decodeDepth(b.buf[b.pos:], b.depth+1)
 	case BinaryDecoder:
 		n, err = x.Decode(b.buf[b.pos:])
 	default:
-		n, err = Decode(b.buf[b.pos:], r)
+		val := reflect.ValueOf(r)
+		n, err = decode(b.buf[b.pos:], val, val.Type().String(), b.depth+1)
 	}
 	if err != nil {
 		b.err = err
